@@ -166,6 +166,20 @@ fn cross_corpus() -> Vec<Vec<u8>> {
         let n = b.len().min(2000);
         v.push(b[..n].to_vec());
     }
+    // the same structures with every other opaque-content pattern (zero / ff runs, DER in all its length forms, nested DER,
+    // lying DER): what the formatting code makes of the content of certificates, signatures, names
+    for style in vcommon::en::FILL_STYLES.iter().copied().filter(|s| *s != 0) {
+        use vcommon::en::with_fill_style as wfs;
+        let mut add = |ws: Vec<W>, step: usize| v.extend(ws.into_iter().step_by(step).filter(|w| w.buf.len() <= 3000).map(|w| w.buf));
+        add(wfs(style, || cat::tls_records(1, false)), 2);
+        add(wfs(style, || cat::handshake_messages(false)), 1);
+        add(wfs(style, cat::known_extensions), 2);
+        add(wfs(style, cat::dtls_records), 3);
+        add(wfs(style, cat::dtls_handshake_messages), 2);
+        add(wfs(style, || cat::signatures(true, false)), 3);
+        add(wfs(style, || cat::scts(false)), 3);
+        add(wfs(style, cat::tls13_messages), 2);
+    }
     v
 }
 
